@@ -42,8 +42,10 @@ FAR = {
     "Spike": [[0.0, -1.0], [0.5, -0.25]],  # the documented form takes the absolute value of the whole exponent
     # (narrower than the library's comparison tolerance 1e-3: still a ramp)
     "Ramp": [[1000.0, 1000.5], [1000.5, 1000.0], [0.5, 0.5005], [0.5005, 0.5], [0.25, 0.25 + 2.0**-12]],
-    "Concave": [[1000.0, 1000.5], [1000.5, 1000.0]],
+    # (zero width, inflection == end: the documented first case gives 0 below the end, the second 0 above it, h at it)
+    "Concave": [[1000.0, 1000.5], [1000.5, 1000.0], [0.5, 0.5], [0.0, 0.0], [-0.25, -0.25], [0.3, 0.3]],
     "Arc": [[1000.0, 1000.5], [1000.5, 1000.0]],
+    "Rectangle": [[0.5, 0.5], [0.0, 0.0]],
     "Gaussian": [[1000.0, 0.25]],
     "Bell": [[1000.0, 0.25, 2.0]],
     "Triangle": [[1000.0, 1000.25, 1000.5]],
